@@ -429,6 +429,10 @@ func (p *Prop[C]) One(c C) *Failure {
 			p.stats.Record(key, false, append(x.labels, "known:"+kf.ID), nil)
 			return nil
 		}
+		if surveyMode() {
+			surveyAdd(p.ID, p.Name, c, f)
+			return nil
+		}
 		out, _ := json.MarshalIndent(replayFile{Property: p.ID, Check: p.Name, Failure: f, Case: raw}, "", " ")
 		writeFileAtomic(filepath.Join(outDir(), fmt.Sprintf("fail-%s-%d.json", p.ID, os.Getpid())), out)
 		return f
@@ -566,8 +570,18 @@ func writeJournal(id, check string, raw []byte) {
 // failure that is not a known finding is written as a replay file.
 func (p *Prop[C]) Try(c C) *Failure {
 	p.init()
+	startWatchdog()
+	if raw, err := json.Marshal(c); err == nil {
+		writeJournal(p.ID, p.Name, raw)
+	}
+	wdStart.Store(time.Now().UnixNano())
 	f := p.exec(c, &Ctx{})
+	wdStart.Store(0)
 	if f == nil {
+		return nil
+	}
+	if surveyMode() {
+		surveyAdd(p.ID, p.Name, c, f)
 		return nil
 	}
 	if kf, ok := KnownOpen(p.ID, f.Class); ok {
@@ -576,4 +590,55 @@ func (p *Prop[C]) Try(c C) *Failure {
 	}
 	WriteFailure(p.ID, p.Name, c, f)
 	return f
+}
+
+// Survey mode (VERIF_SURVEY=1, development aid): failures do not stop the
+// search; one example per failure class is kept and printed at the end.
+func surveyMode() bool { return os.Getenv("VERIF_SURVEY") != "" }
+
+type surveyEntry struct {
+	Count int
+	File  string
+	Size  int
+}
+
+var (
+	surveyMu sync.Mutex
+	survey   = map[string]*surveyEntry{}
+)
+
+func surveyAdd(id, check string, c any, f *Failure) {
+	raw, _ := json.Marshal(c)
+	surveyMu.Lock()
+	defer surveyMu.Unlock()
+	e := survey[f.Class]
+	if e == nil {
+		e = &surveyEntry{Size: 1 << 30}
+		survey[f.Class] = e
+	}
+	e.Count++
+	if len(raw) < e.Size { // keep the smallest example
+		e.Size = len(raw)
+		e.File = filepath.Join(outDir(), "survey-"+sanitize(f.Class)+".json")
+		out, _ := json.MarshalIndent(replayFile{Property: id, Check: check, Failure: f, Case: raw}, "", " ")
+		os.WriteFile(e.File, out, 0o644)
+	}
+}
+
+// PrintSurvey lists the failure classes seen in survey mode.
+func PrintSurvey() {
+	surveyMu.Lock()
+	defer surveyMu.Unlock()
+	if len(survey) == 0 {
+		return
+	}
+	var keys []string
+	for k := range survey {
+		keys = append(keys, k)
+	}
+	sort.Strings(keys)
+	fmt.Println("SURVEY of failure classes:")
+	for _, k := range keys {
+		fmt.Printf("  %7d  %s  (%s)\n", survey[k].Count, k, survey[k].File)
+	}
 }
